@@ -548,7 +548,7 @@ func TestVerifC04(t *testing.T) {
 		return
 	}
 	th := enumx.Thorough()
-	ns := []int{4, 5}
+	ns := []int{4, 5, 6} // (6: the smallest size at which a quorum exists without the leader and one more member)
 	if th {
 		ns = []int{4, 5, 6, 7}
 	}
